@@ -41,12 +41,31 @@ impl ComponentReactors {
 //@fn? src/react/react_cache.rs impl ComponentReactors is_empty ret=b
 //@| ensures b == (self.insertion_callbacks@.len() == 0 && self.mutation_callbacks@.len() == 0 && self.removal_callbacks@.len() == 0),
 }
+// bevy::utils::HashSet = finite set.  ASSUMED.
+#[verifier::external_body]
+#[verifier::reject_recursive_types(K)]
+pub struct HashSet<K> { _k: core::marker::PhantomData<K> }
+impl<K> HashSet<K> {
+    pub uninterp spec fn view(&self) -> Set<K>;
+    #[verifier::external_body]
+    pub fn remove(&mut self, k: &K) -> (r: bool) ensures r == old(self).view().contains(*k), final(self).view() == old(self).view().remove(*k) { unimplemented!() }
+    #[verifier::external_body]
+    pub fn contains(&self, k: &K) -> (r: bool) ensures r == self.view().contains(*k) { unimplemented!() }
+}
+// the checker of one component type (react_cache.rs); its boxed system is opaque here
+#[verifier::external_body] #[verifier::accept_recursive_types(T)] #[verifier::accept_recursive_types(I)] #[verifier::accept_recursive_types(O)]
+pub struct SysCall<T, I, O> { _p: core::marker::PhantomData<(T, I, O)> }
+//@struct src/react/react_cache.rs RemovalChecker
 pub struct ReactCache {
     pub component_reactors: HashMap<TypeId, ComponentReactors>,
     pub despawn_reactors: HashMap<Entity, Vec<ReactorHandle>>,
     pub any_entity_event_reactors: HashMap<TypeId, Vec<ReactorHandle>>,
     pub resource_reactors: HashMap<TypeId, Vec<ReactorHandle>>,
     pub broadcast_reactors: HashMap<TypeId, Vec<ReactorHandle>>,
+    // removal polling state (C08): which component types are watched, and their checkers.  No revocation may touch it: the checker
+    // of a component type also serves the entity-scoped removal reactors, which the type-wide lists do not count.
+    pub tracked_removals: HashSet<TypeId>,
+    pub removal_checkers: Vec<RemovalChecker>,
 }
 // ---- specification: the list under a key (absent key = empty list) and what a revocation does to it -----------------
 pub open spec fn tab<K>(m: Map<K, Vec<ReactorHandle>>, k: K) -> Seq<ReactorHandle> { if m.dom().contains(k) { m[k]@ } else { Seq::empty() } }
@@ -95,6 +114,7 @@ impl ReactCache {
 //@before let _ = self. | assert(callbacks@ =~= Seq::<ReactorHandle>::empty());
 //@| ensures revoked(old(self).broadcast_reactors.view(), final(self).broadcast_reactors.view(), event_id, reactor_id),
 //@|         final(self).component_reactors == old(self).component_reactors, final(self).despawn_reactors == old(self).despawn_reactors, final(self).any_entity_event_reactors == old(self).any_entity_event_reactors, final(self).resource_reactors == old(self).resource_reactors,
+//@|     final(self).tracked_removals@ == old(self).tracked_removals@, final(self).removal_checkers@ == old(self).removal_checkers@,
 //@continue_to_else 1
 //@ghost | broadcast use axiom_vec_len;
 //@loopvar 1 it
@@ -107,6 +127,7 @@ impl ReactCache {
 //@before let _ = self. | assert(callbacks@ =~= Seq::<ReactorHandle>::empty());
 //@| ensures revoked(old(self).resource_reactors.view(), final(self).resource_reactors.view(), resource_id, reactor_id),
 //@|         final(self).despawn_reactors == old(self).despawn_reactors, final(self).any_entity_event_reactors == old(self).any_entity_event_reactors, final(self).broadcast_reactors == old(self).broadcast_reactors,
+//@|     final(self).tracked_removals@ == old(self).tracked_removals@, final(self).removal_checkers@ == old(self).removal_checkers@,
 //@continue_to_else 1
 //@ghost | broadcast use axiom_vec_len;
 //@loopvar 1 it
@@ -119,6 +140,7 @@ impl ReactCache {
 //@before let _ = self. | assert(callbacks@ =~= Seq::<ReactorHandle>::empty());
 //@| ensures revoked(old(self).any_entity_event_reactors.view(), final(self).any_entity_event_reactors.view(), event_id, reactor_id),
 //@|         final(self).despawn_reactors == old(self).despawn_reactors, final(self).resource_reactors == old(self).resource_reactors, final(self).broadcast_reactors == old(self).broadcast_reactors,
+//@|     final(self).tracked_removals@ == old(self).tracked_removals@, final(self).removal_checkers@ == old(self).removal_checkers@,
 //@continue_to_else 1
 //@ghost | broadcast use axiom_vec_len;
 //@loopvar 1 it
@@ -131,6 +153,7 @@ impl ReactCache {
 //@before let _ = self. | assert(callbacks@ =~= Seq::<ReactorHandle>::empty());
 //@| ensures revoked(old(self).despawn_reactors.view(), final(self).despawn_reactors.view(), entity, reactor_id),
 //@|         final(self).any_entity_event_reactors == old(self).any_entity_event_reactors, final(self).resource_reactors == old(self).resource_reactors, final(self).broadcast_reactors == old(self).broadcast_reactors,
+//@|     final(self).tracked_removals@ == old(self).tracked_removals@, final(self).removal_checkers@ == old(self).removal_checkers@,
 //@continue_to_else 1
 //@ghost | broadcast use axiom_vec_len;
 //@loopvar 1 it
@@ -150,6 +173,7 @@ impl ReactCache {
 //@|     &&& forall|u: TypeId| u != t ==> (nm.dom().contains(u) == om.dom().contains(u) && (om.dom().contains(u) ==> #[trigger] nm[u] == om[u])) }),
 //@|     final(self).despawn_reactors == old(self).despawn_reactors, final(self).any_entity_event_reactors == old(self).any_entity_event_reactors,
 //@|     final(self).resource_reactors == old(self).resource_reactors, final(self).broadcast_reactors == old(self).broadcast_reactors,
+//@|     final(self).tracked_removals@ == old(self).tracked_removals@, final(self).removal_checkers@ == old(self).removal_checkers@,
 //@continue_to_else 1
 //@ghost | broadcast use axiom_vec_len;
 //@loopvar 1 it
